@@ -119,6 +119,26 @@ theorem C09_gone_is_gone (cfg : Cfg) (acts more : List Action) (id : Nat)
     omega
   omega
 
+/-- **C09 (a panicking `Manager::detach` does not upset the books).** When `detach` panics
+inside `Object::take` or on the surplus path of a return, everything but the way the call
+ends is as on the normal path: `size`, `users`, the semaphore, the idle queue and the set of
+checked-out objects are the same, `detach` was called once for the object, and the object is
+destroyed (by the unwinding) instead of being handed to the caller of `take`. -/
+theorem C09_detach_panic_books (s s1 s2 s3 s4 : State) (i : Nat) (o : Obj) (add : Bool)
+    (h1 : stepTake s i .detach o add = some s1) (h2 : stepTakePanic s i o = some s2)
+    (h3 : stepRet s i .detach o = some s3) (h4 : stepRetPanic s i o = some s4) :
+    (s2.size = s1.size ∧ s2.users = s1.users ∧ s2.sem = s1.sem ∧ s2.idle = s1.idle ∧
+      s2.out = s1.out ∧ s2.maxSize = s1.maxSize ∧ s2.ops = s1.ops ∧
+      s1.log = s.log ++ [.detach i o.id, .taken i o.id] ∧
+      s2.log = s.log ++ [.detach i o.id, .destroy i o.id, .opPanic i]) ∧
+    (s4.size = s3.size ∧ s4.users = s3.users ∧ s4.sem = s3.sem ∧ s4.idle = s3.idle ∧
+      s4.out = s3.out ∧ s4.maxSize = s3.maxSize ∧ s4.ops = s3.ops ∧
+      s3.log = s.log ++ [.detach i o.id, .destroy i o.id] ∧
+      s4.log = s.log ++ [.detach i o.id, .destroy i o.id, .opPanic i]) := by
+  simp only [stepTake, stepTakePanic, stepRet, stepRetPanic, Option.some.injEq] at h1 h2 h3 h4
+  subst h1 h2 h3 h4
+  exact ⟨⟨rfl, rfl, rfl, rfl, rfl, rfl, rfl, rfl, rfl⟩, ⟨rfl, rfl, rfl, rfl, rfl, rfl, rfl, rfl, rfl⟩⟩
+
 /-! Non-vacuity: retain with a stateful predicate (keep, drop, keep) over three idle objects -/
 
 example : selectBy [true, false, true] true 0
